@@ -7,7 +7,7 @@ from __future__ import annotations
 import ast
 import re
 
-from ..astutil import call_attr, calls_in, guard_facts, text_facts, unparse, walk_local
+from ..astutil import call_attr, calls_in, guard_facts, subst_chain_aliases, text_facts, unparse, walk_local
 from ..cfg import CFG
 from ..dataflow import reaching_defs, resolved_text
 from ..paths import element_calls, enum_paths
@@ -233,7 +233,8 @@ def check_attr_dict(idx: Index, rep: Report) -> None:
             bad.append(f"the added element `{ad.elem}` is not the name of the iterated definition")
             continue
         n_, d_ = re.escape(tg[0]), re.escape(tg[1])
-        eq = [t for t, pol in ad.facts if pol and (re.fullmatch(rf"{dname}\.get\({n_}\) == {d_}\.default_value|{d_}\.default_value == {dname}\.get\({n_}\)|{dname}\[{n_}\] == {d_}\.default_value", t))]
+        afacts = [(subst_chain_aliases(p.node, t), pol) for t, pol in ad.facts]
+        eq = [t for t, pol in afacts if pol and (re.fullmatch(rf"{dname}\.get\({n_}\) == {d_}\.default_value|{d_}\.default_value == {dname}\.get\({n_}\)|{dname}\[{n_}\] == {d_}\.default_value", t))]
         if not eq:
             bad.append(f"`{ad.elem}` is elided under {sorted(ad.facts)}: without the test that the printed dictionary holds exactly the declared default, a non-default value is dropped from the output")
     if bad:
